@@ -137,4 +137,16 @@ def buildStates (states : List StateDecl) (trans : List TransDecl) (ctor : List 
       enter := ids (ex .enter), exit := ids (ex .exit),
       trans := (trans.filter (·.source == i)).map (buildTransn ctor late) }
 
+/-- `CallbacksRegistry.check` (run by the constructor after its one registration pass): a callback the class
+names explicitly — inline (`before="log"`, `cond="ok"`, priority INLINE) or by decorator — must have resolved to at
+least one callable among the constructor's providers; naming-convention specs are optional -/
+def required (s : Spec) : Bool := s.prio == 10 || s.prio == 20
+
+def unresolved (ctor : List Provider) (specs : List Spec) : Bool :=
+  specs.any fun s => required s && (buildSpec ctor s).isEmpty
+
+/-- the instance can be constructed (`false`: `InvalidDefinition`, before anything runs) -/
+def checkDecls (states : List StateDecl) (trans : List TransDecl) (ctor : List Provider) : Bool :=
+  !(states.any (fun d => unresolved ctor d.specs) || trans.any (fun d => unresolved ctor d.specs))
+
 end SMV.Reg
